@@ -121,3 +121,27 @@ def run(P: Program, rep: Report):
             names.index("ResolveStringReferencesMiddleware") < names.index("RemoveEnclosingMiddleware")
         rep.check(ok, "C11.R5", "default-parse-stack-order", ps.loc,
                   f"default parse stack is {names}: references must be resolved before enclosings are removed (else \"s1\" looks like a reference)")
+
+    bps = P.func("entrypoint", "_build_parse_stack")
+
+    def three(ctx):
+        it = driver_interp(P, ctx, "entrypoint")
+        try:
+            extra = it.construct(P.cls("middlewares.fieldkeys", "NormalizeFieldKeys"), [], {})
+            st = call_func(it, bps, None, AList([extra]))
+            return [x.cls.name for x in it.iterate(st) if isinstance(x, AObj)]
+        except (Raised, Unsupported) as e:
+            return str(e)
+    for ctx, names in explore(three, 5):
+        ok = isinstance(names, list) and names == ["ResolveStringReferencesMiddleware", "RemoveEnclosingMiddleware", "NormalizeFieldKeys"]
+        rep.check(ok, "C11.R5", "parse-stack-with-addition-order", bps.loc,
+                  f"parse stack with an appended middleware is {names}: resolution must still run first, the addition last")
+
+    rep.rule("C11.R6", "reference lookup needs exact @string keys and verbatim field values from the splitter (splitter product, content class, see C02.R2)")
+    from .. import splitter_facts as _sf
+    _sf.report_product(rep, P, "C11.R6", ["content"], "parsed content", after_abort=False)
+
+    rep.rule("C11.R9", "no unsafe memoisation in the modules this property rests on: a function decorated with lru_cache / cache / "
+                      "cached_property neither takes nor returns a mutable object (else later calls see stale or shared results)")
+    from . import common as _common
+    _common.no_unsafe_memoisation(P, rep, "C11.R9", ['middlewares.interpolate', 'middlewares.parsestack', 'library'])
